@@ -18,5 +18,6 @@ MC_MaxExtra == 1
 MC_BatchAtEnd == TRUE
 MC_EMIT == TRUE
 MC_ListOrders == {"asc"}
+MC_CoordPkps == {"current"}
 
 ====
